@@ -14,5 +14,6 @@ import sys; sys.path.insert(0,'tools')
 import runner
 ok,out = runner.build_driver(); print(out[-2000:]); assert ok
 ok,out = runner.build_harness(); print(out[-2000:]); assert ok
+ok,out = runner.build_harness_std(); print(out[-2000:]); assert ok
 "
 echo setup done
